@@ -438,12 +438,12 @@ Definition lit_is (t : token) (name : list N) : bool :=
   | None => false
   end.
 
-Fixpoint skip_numbers (fuel : nat) (t : token) (s : scanner) : result (token * scanner) :=   (* while (tok.kind == TNUMBER) scan(&tok); *)
+Fixpoint skip_numbers (fuel scanfuel : nat) (t : token) (s : scanner) : result (token * scanner) :=   (* while (tok.kind == TNUMBER) scan(&tok); *)
   match fuel with
   | O => OutOfFuel
   | S n =>
     match tkind t with
-    | TNUMBER => bind (scan n s) (fun p => skip_numbers n (fst p) (snd p))
+    | TNUMBER => bind (scan scanfuel s) (fun p => skip_numbers n scanfuel (fst p) (snd p))
     | _ => Ok (t, s)
     end
   end.
@@ -462,7 +462,7 @@ Definition line_part (fuel : nat) (tnum : token) (s : scanner) : result scanner 
           end) (fun q =>
       match q with
       | (newfile, t, s) =>
-        bind (skip_numbers fuel t s) (fun p'' =>
+        bind (skip_numbers fuel fuel t s) (fun p'' =>
           let t := fst p'' in
           let s := scansetloc (snd p'') newfile newline (lline (tloc t)) in
           match tkind t with
@@ -507,14 +507,14 @@ Definition directive (fuel : nat) (s : scanner) : result scanner :=
     end).
 
 (* nextinto(): `newline` is the function's static flag *)
-Fixpoint nextinto (fuel : nat) (newline : bool) (s : scanner) : result (token * bool * scanner) :=
+Fixpoint nextinto (fuel scanfuel : nat) (newline : bool) (s : scanner) : result (token * bool * scanner) :=
   match fuel with
   | O => OutOfFuel
   | S n =>
-    bind (scan fuel s) (fun p =>
+    bind (scan scanfuel s) (fun p =>
       let t := fst p in let s := snd p in
       match newline, tkind t with
-      | true, THASH => bind (directive fuel s) (fun s => nextinto n newline s)
+      | true, THASH => bind (directive scanfuel s) (fun s => nextinto n scanfuel newline s)
       | _, TNEWLINE => Ok (t, true, s)
       | _, _ => Ok (t, false, s)
       end)
@@ -527,7 +527,7 @@ Fixpoint next (fuel : nat) (scanfuel : nat) (ppnewline : bool) (newline : bool) 
   match fuel with
   | O => OutOfFuel
   | S n =>
-    bind (nextinto scanfuel newline s) (fun r =>
+    bind (nextinto scanfuel scanfuel newline s) (fun r =>
       match r with
       | (t, nl, s) =>
         match tkind t, ppnewline with
